@@ -30,7 +30,7 @@ RULE = ('One case = one generated chart + one input history; the base build (API
         'whatever the order); the repetition hands the same initial_context dictionary to a second interpreter; names differing by case only.')
 ASSUMPTIONS = ['order of guard *evaluation* is not part of a macro step and is not compared',
                'generator domain of DESIGN §2; hash seeds sampled, not enumerated']
-REQUIRED_COUNTERS = ['repetitions_with_the_same_initial_context_object', 'cases_with_guards_that_raise', 'edited_variants', 'variant_runs_compared', 'yaml_variants', 'api_variants', 'hashseed_children', 'hashseed_digests_compared',
+REQUIRED_COUNTERS = ['cases_with_case_variant_sibling_regions', 'repetitions_with_the_same_initial_context_object', 'cases_with_guards_that_raise', 'edited_variants', 'variant_runs_compared', 'yaml_variants', 'api_variants', 'hashseed_children', 'hashseed_digests_compared',
                      'cases_with_same_depth_exits']
 
 MODES = [('orth', 4, dict(p_orth=0.5, p_state_send=0.15)), ('clash', 2, dict(p_orth=0.4)),
@@ -51,6 +51,15 @@ def make_case(rnd, tier):
     if rnd.random() < 0.15:
         g['p_odd_names'] = 1.0       # names that differ by case only, format-significant characters...
     ch = gen_chart(rnd, mode=mode, **g)
+    if rnd.random() < 0.2:
+        # sibling regions whose names differ by case only ('Wk' / 'wk'): two names, two states, one fixed order
+        st_ = ch['states']
+        orths = [n for n in ch['order'] if st_[n]['kind'] == 'orthogonal' and len(st_[n]['children']) >= 2]
+        taken = set(ch['order'])
+        if orths and not ({'Wk', 'wk'} & taken):
+            from .c11 import rename_chart
+            a, b = rnd.sample(st_[rnd.choice(orths)]['children'], 2)
+            ch = rename_chart(ch, {a: 'Wk', b: 'wk'}, {})
     if rnd.random() < 0.25:
         # some guards cannot be evaluated: the step fails, and with the same kind of error whatever the declaration order
         for t in ch['transitions']:
@@ -136,6 +145,8 @@ def run_case(acc, rnd, tier, case):
     st = ch['states']
     if any(t.get('raising_guard') for t in ch['transitions']):
         acc.count('cases_with_guards_that_raise')
+    if 'Wk' in st and 'wk' in st and st['Wk']['parent'] == st['wk']['parent']:
+        acc.count('cases_with_case_variant_sibling_regions')
     base, d_base, d_host = base_digests(ch, script, valseed, p_true)
     acc.extra.setdefault('_digests', {})[str(case)] = [d_base, d_host]
     wit = dict(chart=ch, script=script, p_true=p_true)
